@@ -56,7 +56,8 @@ def parse_member_specs(cls):
                 container, optional = const(a[2]), const(a[3])
                 attrs = ast.literal_eval(a[4]) if len(a) > 4 else {}
                 choice = const(a[5]) if len(a) > 5 else None
-                out.append({"name": name, "type": dtype if isinstance(dtype, str) else dtype[0],
+                # MemberSpec_.get_data_type() returns the LAST entry when the data type is a list
+                out.append({"name": name, "type": dtype if isinstance(dtype, str) else dtype[-1],
                             "types": dtype if isinstance(dtype, list) else [dtype],
                             "container": container, "optional": optional, "attrs": attrs, "choice": choice})
     return out
